@@ -250,6 +250,22 @@ func rev[V any](a []V) []V {
 	return b
 }
 
+// checkFresh: an iterator obtained AFTER the mutation enumerates the collection as it is now.
+func checkFresh[V any](r *engine.Rec, c snapCase, coll col.Sequential[V], same func(a, b V) bool) {
+	now := coll.AsArray()
+	fwd, _ := walk(coll.GetIterator())
+	ok := len(fwd) == len(now) && coll.GetSize() == len(now)
+	for i := 0; ok && i < len(now); i++ {
+		if !same(fwd[i], now[i]) {
+			ok = false
+		}
+	}
+	if !ok {
+		r.Violation("an iterator obtained after a mutation of "+c.Kind+" does not enumerate the collection as it is now (mutation "+c.Mut+")",
+			fmt.Sprintf("%+v: array view %v, new iterator yields %v", c, now, fwd), c)
+	}
+}
+
 func checkSnap[V any](r *engine.Rec, c snapCase, before []V, it age.IteratorLike[V], same func(a, b V) bool) {
 	fwd, bwd := walk(it)
 	ok := len(fwd) == len(before) && len(bwd) == len(before)
@@ -333,6 +349,7 @@ func snapshots(r *engine.Rec) {
 					})
 				}
 				checkSnap(r, c, before, it, eqInt)
+				checkFresh[int](r, c, a, eqInt)
 			})
 		}
 		// List
@@ -371,6 +388,7 @@ func snapshots(r *engine.Rec) {
 					l.AppendValues(l)
 				}
 				checkSnap(r, c, before, it, eqInt)
+				checkFresh[int](r, c, l, eqInt)
 			})
 		}
 		// Set
@@ -399,6 +417,7 @@ func snapshots(r *engine.Rec) {
 					s.RemoveValues(col.List[int](N).MakeFromArray([]int{10, 20}))
 				}
 				checkSnap(r, c, before, it, eqInt)
+				checkFresh[int](r, c, s, eqInt)
 			})
 		}
 		// Stack
@@ -417,6 +436,7 @@ func snapshots(r *engine.Rec) {
 					s.RemoveAll()
 				}
 				checkSnap(r, c, before, it, eqInt)
+				checkFresh[int](r, c, s, eqInt)
 			})
 		}
 		// Queue (capacity 16: none of these blocks; RemoveHead only on a non-empty queue)
@@ -440,6 +460,9 @@ func snapshots(r *engine.Rec) {
 					q.CloseQueue()
 				}
 				checkSnap(r, c, before, it, eqInt)
+				if mut != "CloseQueue" {
+					checkFresh[int](r, c, q, eqInt)
+				}
 			})
 		}
 		// Catalog: the iterator yields the association objects in order; keys and identities must not change
@@ -467,6 +490,7 @@ func snapshots(r *engine.Rec) {
 					cat.RemoveValues(col.List[int](N).MakeFromArray([]int{10, 20}))
 				}
 				checkSnap(r, c, before, it, func(a, b col.AssociationLike[int, string]) bool { return a == b })
+				checkFresh[col.AssociationLike[int, string]](r, c, cat, func(a, b col.AssociationLike[int, string]) bool { return a == b })
 			})
 		}
 		// Map: the iterator yields copies; compare (key,value) multisets
